@@ -264,6 +264,17 @@ fn exec_s<C: GenericConfig<D, F = F>, const COLS: usize, const PIS: usize>(case:
             Ok(p) => stark_verify::<C, COLS, PIS>(def, &cfg, p).is_ok(),
             Err(_) => false,
         };
+        if violated.is_some() && role.starts_with("looking") && case.only.is_none() || violated.is_some() && role == "replay" {
+            // the same fault through a prover whose helper columns are stale (computed from the valid trace)
+            rep.fault(&format!("{role}+stale_helper_columns"));
+            rep.case(base_sig ^ hash_value(&json!(["stale", row, col, nv])), true);
+            case.sched.arm();
+            if let Ok(p2) = crate::c09::stark_prove_mismatch::<C, COLS, PIS>(def, &cfg, &inst.rows, &rows, &inst.pis) {
+                if stark_verify::<C, COLS, PIS>(def, &cfg, &p2).is_ok() {
+                    viol(rep, case, Some((*row, *col, *nv)), role, "accepted_lookup_proof_with_stale_helper_columns", format!("row {row} col {col}: {}", violated.clone().unwrap()));
+                }
+            }
+        }
         if violated.is_some() && accepted {
             viol(rep, case, Some((*row, *col, *nv)), role, "accepted_lookup_proof_with_missing_or_extra_value", format!("row {row} col {col}: {}", violated.unwrap()));
         } else if violated.is_none() && !accepted {
